@@ -408,6 +408,66 @@ def allowed_vs_constructor(arg):
     return []
 
 
+FOREIGN_LINES = [
+    "1,He+,H,,He,H+,,,,,1e-9,0,0,10,1000,100,demo",
+    "2,C+,O,,C,O+,,,,,1e-9,0,0,10,1000,100,demo",
+    "3,He+,O,,He,O+,,,,,1e-9,0,0,10,1000,100,demo",
+    "4,CO,He+,,C+,O,He,,,,1e-9,0,0,10,1000,100,demo",
+]
+FOREIGN_ALLOWED = [["He+", "He", "H", "H+", "O", "O+"], ["C+", "O", "C", "O+"], ["He+", "He", "CO", "C+", "O"], []]
+FOREIGN_OTHERS = [
+    {"elements": ["H", "D", "C"], "pseudo_elements": ["CR"]},
+    {"elements": ["H", "C", "O", "N"], "pseudo_elements": []},
+    {},  # the default lists
+]
+FOREIGN_OPS = ["construct", "add", "set-allowed", "species"]
+
+
+def allowed_with_foreign_network(arg):
+    """every Network carries its own element lists: a network of the same session with OTHER lists, built or used
+    between the construction of a network and a later change of its allowed list, must not change the result (setter =
+    constructor with that list)"""
+    nl, ai, oi, op = arg
+    from ..harness.render import reset_globals, quiet
+
+    reset_globals()
+    from naunet.network import Network
+
+    kw = dict(elements=["H", "He", "C", "O"], pseudo_elements=["CR", "CRPHOT", "PHOTON"])
+    lines = FOREIGN_LINES[:nl]
+    allowed = FOREIGN_ALLOWED[ai]
+
+    def content(net):
+        src, snk = net.find_source_sink()
+        return (sorted(r.idxfromfile for r in net.reaction_list), sorted(s.name for s in net.species), sorted(s.name for s in src), sorted(s.name for s in snk))
+
+    case = {"foreign": [nl, ai, oi, op]}
+    with quiet():
+        ref = Network(allowed_species=list(allowed), **kw)
+        for ln in lines:
+            ref.add_reaction((ln, "naunet"))
+        want = content(ref)
+        reset_globals()
+        net = Network(**kw)
+        for ln in lines:
+            net.add_reaction((ln, "naunet"))
+        other = Network(**FOREIGN_OTHERS[oi])
+        if op != "construct":
+            other.add_reaction(("1,H2,C,,CH,H,,,,,1e-10,0,0,10,1000,100,demo", "naunet"))
+        if op == "set-allowed":
+            other.allowed_species = ["H2", "C", "CH", "H"]
+        if op == "species":
+            _ = [s.name for s in other.species]
+        try:
+            net.allowed_species = list(allowed)
+            got = content(net)
+        except Exception as e:
+            return [(f"C14:allowed-after-foreign-network:raises", f"network with elements {kw['elements']} and lines {lines}; another network ({FOREIGN_OTHERS[oi] or 'default lists'}, {op}) in between; allowed_species = {allowed} raises {e!r}", case)]
+    if got != want:
+        return [(f"C14:allowed-after-foreign-network", f"network with elements {kw['elements']}; another network ({FOREIGN_OTHERS[oi] or 'default lists'}, {op}) in between; allowed {allowed}: setter gives {got}, constructor gives {want}", case)]
+    return []
+
+
 def spelling_filter(arg):
     """the allowed list names *species*: a reaction whose species equal allowed ones under another spelling (electron
     'E' / 'E-' / 'e-', ice '#CO' / 'GCO' with prefix G) is allowed, through every entry path"""
@@ -530,6 +590,9 @@ def run(ctx):
     for v in ctx.pmap(allowed_vs_constructor, work, chunksize=16):
         nav += 1
         ctx.absorb(v)
+    for v in ctx.pmap(allowed_with_foreign_network, [(nl, ai, oi, op) for nl in (1, 2, 3, 4) for ai in range(len(FOREIGN_ALLOWED)) for oi in range(len(FOREIGN_OTHERS)) for op in FOREIGN_OPS], chunksize=8):
+        nav += 1
+        ctx.absorb(v)
     nsp = 0
     for v in ctx.pmap(spelling_filter, [(e, *sp) for e in ("constructor", "add", "setter") for sp in SPELLING]):
         nsp += 1
@@ -578,6 +641,8 @@ def replay(ctx, case):
         ctx.absorb(v)
     elif "adds" in case:
         ctx.absorb(allowed_vs_constructor((tuple(case["adds"]), case["allowed"])))
+    elif "foreign" in case:
+        ctx.absorb(allowed_with_foreign_network(tuple(case["foreign"])))
     elif "spelling" in case:
         e, a, r, k, *flag = case["spelling"]
         ctx.absorb(spelling_filter((e, a, (r[0], r[1]), k, *flag)))
